@@ -219,8 +219,13 @@ func checkC06(r *Result) {
 				okCum = z == "call:cosmossdk.io/math.LegacyZeroDec" || z == "call:cosmossdk.io/math.ZeroInt"
 			}
 			r.check(okCum, "MEDIAN-SELECT", "(x/oracle/keeper.Keeper).WeightedMedian # the compared quantity is the running sum including the walked report's power", pos(selIf.Cond.Pos()), fmt.Sprintf("addends %d, bases %d, compared value is the updated sum: %v", len(adds), len(bases), len(adds) == 1 && ssa.Value(adds[0]) == cum))
+			// `if cum < half { continue }` is the same test with its branches exchanged
+			hitIdx := 0
+			if rel == "<" {
+				rel, hitIdx = ">=", 1
+			}
 			r.check(rel == ">=", "MEDIAN-SELECT", "(x/oracle/keeper.Keeper).WeightedMedian # comparison is cumulative >= half", pos(selIf.Cond.Pos()), "cumulative "+rel+" half")
-			hit := selIf.Block().Succs[0]
+			hit := selIf.Block().Succs[hitIdx]
 			r.check(!inLoop(wm, hit), "MEDIAN-SELECT", "(x/oracle/keeper.Keeper).WeightedMedian # the first report reaching half ends the walk", pos(selIf.Cond.Pos()), fmt.Sprintf("hit block %d in loop: %v", hit.Index, inLoop(wm, hit)))
 			// SAME-ORIGIN: stores happen in blocks dominated by the hit block
 			st := aggregateFieldStores(wm)
